@@ -156,4 +156,4 @@ Example ex_case_folding :
     /\ nth_error (match w with VStruct l => l | _ => [] end) 1 = Some (VInt 7)
     /\ nth_error (match w with VStruct l => l | _ => [] end) 12
        = Some (VSome (VStruct [VFloat 1 0; VFloat 3 0; VFloat 2 0; VFloat 4 0])).
-Proof. eexists. eexists. split; [vm_compute; reflexivity|]. repeat split. Qed.
+Proof. eexists. eexists. split; [vm_compute; reflexivity|]. repeat split; reflexivity. Qed.
